@@ -9,6 +9,9 @@
    window inside Coq; the roll-up table may only appear when m15_representable holds for the query.
 4. the Go post-processors FixPeriodPlanner / ZeroEaterPlanner run for real on scripted batches, compared with the
    model functions and judged by the spec oracle, inside Coq.
+5. execution (run_exec): the statement of the planner model (byte-identical to the implementation's on the same case) is
+   evaluated by model/SqlEvalAgg.v over generated databases and compared with metric_ref_db (model/LogqlMetricExec.v,
+   OCaml extraction); a disagreement is a VIOLATION with (query, context, database, got, expected).
 """
 import json
 import os
@@ -163,6 +166,7 @@ def run_post(ck):
 
 
 RE_SELECT = re.compile(r"(?:^|[ (])SELECT ")
+FP_FULL = "cityHash64(arraySort(arrayZip(mapKeys(labels),mapValues(labels)))) as fingerprint"
 
 
 def stale_fingerprint_grouping(sql):
@@ -175,10 +179,11 @@ def stale_fingerprint_grouping(sql):
     for piece in RE_SELECT.split(sql)[1:]:
         k = piece.find(" FROM ")
         cols, rest = (piece[:k], piece[k:]) if k >= 0 else (piece, "")
-        if re.search(r"cityHash64\(.*?\) as (new_)?fingerprint", cols):
+        if "mapFilter((k,v) -> k!=" in cols or "mapFilter((k,v) -> (k, v)!=" in cols:
+            # the select of a drop stage must re-fingerprint the line with the hash of the NAMES AND VALUES of the remaining labels
+            stale = FP_FULL not in cols
+        elif re.search(r"cityHash64\(.*?\) as (new_)?fingerprint", cols):
             stale = False
-        elif "mapFilter((k,v) -> k!=" in cols or "mapFilter((k,v) -> (k, v)!=" in cols:
-            stale = True
         if stale and re.search(r"GROUP BY (fingerprint, timestamp_ns|timestamp_ns, fingerprint)", rest):
             return True
     return False
@@ -276,9 +281,9 @@ def run_sql(ck):
                 worst["query"], len(st_hits), sum(1 for c in allc if c.get("sql"))))
         else:
             ck.obligation("spec oracle: a range aggregation groups by a fingerprint of the labels the pipeline leaves", False, worst["query"])
-            ck.violation({"property": "C08", "part": "output_series_are_grouped_label_sets", "kind": "a drop stage rewrites the labels and keeps the fingerprint; the range aggregation groups by the stale fingerprint",
-                          "case": witness_rows(worst, "select with mapFilter((k,v) -> k!=...) as labels and no cityHash64(...) as fingerprint before GROUP BY fingerprint, timestamp_ns"), "sql": worst["sql"][0][:3000],
-                          "failing_input": "two streams that differ only in a dropped label, one line each in one window: two series with one label set instead of one (corpus witness id 12; theorem drop_stage_merges_equal_streams states the repaired behaviour)",
+            ck.violation({"property": "C08", "part": "output_series_are_grouped_label_sets", "kind": "a drop stage rewrites the labels and does not re-fingerprint the line with the hash of the names and values of the remaining labels; the range aggregation groups by that fingerprint",
+                          "case": witness_rows(worst, "select with mapFilter((k,v) -> k!=...) as labels and no " + FP_FULL + " before GROUP BY fingerprint, timestamp_ns"), "sql": worst["sql"][0][:3000],
+                          "failing_input": "two streams that differ only in a dropped label (stale fingerprint: two series with one label set instead of one) resp. two streams that differ in the value of a label that is kept (fingerprint of the names only: one series for two label sets), one line each in one window (corpus witness id 12; theorem drop_stage_merges_equal_streams states the repaired behaviour)",
                           "replay": "harness logqlsql --cases <file with this case>"})
     # ---- spec oracle 2: aggregate fragments read back from the implementation's SQL
     lra, agg = observations(allc)
@@ -344,6 +349,173 @@ def run_sql(ck):
     ck.add_samples([{"query": c["query"], "ctx": c["ctx"], "sql_head": (c.get("sql") or [c.get("err_text", "")])[0][:200]} for c in cases[:3]])
 
 
+
+# ---------------------------------------------------------------------- execution of the statements on databases
+def unhex(h):
+    return bytes.fromhex(h).decode("utf8", "replace")
+
+
+def parse_exec_rows(txt):
+    if txt == "-":
+        return None
+    out = []
+    for r in txt.split(";") if txt else []:
+        if r == "?":
+            out.append("row without labels/timestamp_ns/value")
+            continue
+        l, ts, v = r.split(",")
+        out.append({"labels": {unhex(kv.split("=")[0]): unhex(kv.split("=")[1]) for kv in l.split("&")} if l else {}, "ts": int(ts), "value": v})
+    return out
+
+
+def ocaml_exec(ck, name, cases, timeout=1200):
+    """model/LogqlMetricExec.exec_case over (script, ctx, databases) through the OCaml extraction; the case file is compiled
+    to bytecode (large terms: ocamlopt takes ~0.1 s per case)"""
+    import shutil
+    import time
+    import vcheck
+    d = os.path.join(vcheck.BUILD, "ocaml", vcheck.repo_tag(), "%s_%s_%d" % (name, ck.pid, os.getpid()))
+    os.makedirs(d, exist_ok=True)
+    t = time.time()
+    rc, out = vcheck.sh(["coqc", "-R", vcheck.COQ, "Qryn", "-w", "-extraction", "-o", os.path.join(d, "ExtractLogqlExec.vo"),
+                         os.path.join(vcheck.COQ, "extract", "ExtractLogqlExec.v")], cwd=d, timeout=600)
+    if rc != 0:
+        return rc, "extraction failed: " + out[-2000:]
+    chunks = []
+    for k in range(0, len(cases), 25):
+        chunks.append("let chunk%d = [\n %s]\n" % (k // 25, ";\n ".join("(%d, %s, %s, %s)" % (c["id"], c["script_ml"], c["ctx_ml"], c["dbs_ml"]) for c in cases[k:k + 25])))
+    txt = "".join(chunks) + "let cases = List.concat [" + "; ".join("chunk%d" % i for i in range(len(chunks))) + "]\n"
+    prelude = open(os.path.join(vcheck.VERIF, "ocaml", "prelude.ml")).read()
+    open(os.path.join(d, "cases.ml"), "w").write("open Logqlexec\n%s\n%s\n" % (prelude, txt))
+    shutil.copy(os.path.join(vcheck.VERIF, "ocaml", "logqlx_driver.ml"), os.path.join(d, "driver.ml"))
+    rc, out = vcheck.sh(["sh", "-c", "ulimit -s unlimited 2>/dev/null; exec ocamlfind ocamlc -w -a -o run logqlexec.mli logqlexec.ml cases.ml driver.ml"], cwd=d, timeout=timeout)
+    if rc != 0:
+        return rc, "ocaml build failed: " + out[-3000:]
+    tb = time.time() - t
+    rc, out = vcheck.sh(["sh", "-c", "ulimit -s unlimited 2>/dev/null; exec ./run"], cwd=d, timeout=timeout)
+    shutil.rmtree(d, ignore_errors=True)
+    ck.log("ocaml eval %s rc=%d (extract+build %.1fs, total %.1fs)" % (name, rc, tb, time.time() - t))
+    ck.checker_cmds.append("coqc extract/ExtractLogqlExec.v -> ocamlc -> run (the metric statements executed by SqlEvalAgg over generated databases, compared with metric_ref_db)")
+    return rc, out
+
+
+def run_exec(ck):
+    """hint (e): the statement of the planner model (tied byte for byte to the implementation's statement on the SAME case) is
+    executed over small databases by model/SqlEvalAgg.v and compared with the reference over the stored data"""
+    ok, out = ck.coq_make(["model/LogqlMetricExec.vo", "model/LogqlCases.vo"])
+    if not ok:
+        ck.obligation("execution model builds", False, out[-1500:])
+        return
+    outp = os.path.join(ck.work, "logqlsql_metricdb.jsonl")
+    rc, out = ck.go_run("logqlsql", ["--mode", "metricdb", "--seed", ck.seed, "--n", ck.n(130, 3000), "--dbs", 2, "--out", outp], timeout=1800)
+    if rc != 0:
+        ck.obligation("harness logqlsql --mode metricdb ran", False, out[-1500:])
+        return
+    cases = [json.loads(l) for l in open(outp)]
+    corpus = os.path.join(CORPUS, "exec.jsonl")
+    if os.path.exists(corpus):
+        outc = os.path.join(ck.work, "logqlsql_exec_corpus.jsonl")
+        rc, out = ck.go_run("logqlsql", ["--cases", corpus, "--out", outc])
+        if rc == 0:
+            wit = [json.loads(l) for l in open(outc)]
+            for c in wit:
+                c["id"] = 3000000 + c["id"]
+                c["class"] = (c.get("class") or []) + ["corpus"]
+            cases = wit + cases
+    # tie: the statement that is executed is the implementation's statement, byte for byte, on every executed case
+    usable, mism, _ = sqltext.compare_metric(ck, cases, name="logqlm_exec")
+    ck.obligation("correspondence on the %d executed cases: the model's statement is the implementation's statement, byte for byte" % len(usable),
+                  mism is not None and not mism, "; ".join("%s => %s" % (c["query"], c.get("diff")) for c in (mism or [])[:3]))
+    if mism:
+        ck.metric_mismatch_cases = getattr(ck, "metric_mismatch_cases", []) + mism
+    bad_ids = {c["id"] for c in (mism or [])}
+    run = [c for c in usable if c.get("sql") and c.get("dbs_ml") and c["id"] not in bad_ids]
+    rc, out = ocaml_exec(ck, "logqlx", run)
+    if rc != 0:
+        ck.obligation("metric statements executed over the generated databases", False, out[-2000:])
+        return
+    byid = {c["id"]: c for c in run}
+    verd, got, want, m15, vdef, wdef = {}, {}, {}, {}, {}, {}
+    for ln in out.splitlines():
+        p = ln.split(" ")
+        if p[0] == "S":
+            m15[int(p[1])] = p[2] == "1"
+        elif p[0] == "D":
+            verd[(int(p[1]), int(p[2]))] = (int(p[3]), int(p[4]))
+            vdef[(int(p[1]), int(p[2]))] = int(p[5])
+        elif p[0] == "G":
+            got[(int(p[1]), int(p[2]))] = parse_exec_rows(p[3] if len(p) > 3 else "")
+        elif p[0] == "W":
+            want[(int(p[1]), int(p[2]))] = parse_exec_rows(p[3] if len(p) > 3 else "")
+        elif p[0] == "F":
+            wdef[(int(p[1]), int(p[2]))] = parse_exec_rows(p[3] if len(p) > 3 else "")
+    hist = {"agree": 0, "tie-dependent": 0, "differ": 0, "not-evaluated": 0, "no-reference": 0, "shortcut-window-unaligned": 0}
+    differ, noeval = [], []
+    distinct = set()
+    for (i, k), (v1, v2) in sorted(verd.items()):
+        c = byid[i]
+        # the roll-up table is read in whole 15 s slots below floor15(to): a window that is not made of whole slots is answered
+        # from another set of lines than the definition's [from, to) (design.d/C08.md "Not covered"); judged when aligned
+        if m15.get(i) and (c["ctx"]["from_ns"] % 15000000000 or c["ctx"]["to_ns"] % 15000000000):
+            hist["shortcut-window-unaligned"] += 1
+            continue
+        if v1 == 3 or v1 == 4:
+            hist["no-reference"] += 1
+        elif v1 == 0 and v2 == 0:
+            hist["agree"] += 1
+            if len(c["dbs"][k]["samples"]) >= 3:
+                distinct.add(json.dumps([c["query"], c["ctx"], c["dbs"][k]], sort_keys=True))
+        elif v1 == 0 or v2 == 0:
+            hist["tie-dependent"] += 1      # equal timestamps / ANY row: ClickHouse promises no order among ties, the reference picks one
+        elif v1 == 2 or v2 == 2:
+            hist["not-evaluated"] += 1
+            noeval.append((i, k))
+        else:
+            hist["differ"] += 1
+            differ.append((i, k))
+    ck.extra["exec_verdicts"] = hist
+    cls = {}
+    for c in run:
+        for x in set(c.get("class") or []):
+            cls[x] = cls.get(x, 0) + 1
+    ck.extra["exec_query_classes"] = cls
+    ck.extra["exec_shortcut_cases"] = sum(1 for i in m15 if m15[i])
+    judged = hist["agree"] + hist["tie-dependent"] + hist["differ"]
+    ck.coverage["evaluations"] += judged
+    ck.coverage["distinct_nontrivial"] += len(distinct)
+    ck.obligation("execution: the statement of every executed case (%d statements x databases judged) answers metric_ref_db over the stored data (SqlEvalAgg)" % judged,
+                  not differ, "; ".join(byid[i]["query"] for i, _ in differ[:3]))
+    ck.obligation("execution: at most 5%% of the statements fall outside the evaluated SQL subset (%d of %d)" % (len(noeval), judged + len(noeval)),
+                  len(noeval) * 20 <= judged + len(noeval), "; ".join(byid[i]["query"] for i, _ in noeval[:3]))
+    if differ:
+        i, k = min(differ, key=lambda ik: (len(byid[ik[0]]["dbs"][ik[1]]["samples"]), len(byid[ik[0]]["query"])))
+        c = byid[i]
+        ck.violation({"property": "C08", "part": "logql_metric_correct", "kind": "the statement, executed over the database, answers other series / values than the definition",
+                      "case": {"query": c["query"], "ctx": c["ctx"], "db": c["dbs"][k]}, "sql": c["sql"][0][:3000],
+                      "got_from_statement": got.get((i, k)), "expected_by_definition": want.get((i, k)),
+                      "failing_input": "the database of this case (series / samples as listed), query and context as given",
+                      "replay": "harness logqlsql --cases <file with this case (fields query, ctx, runs, metric, dbs)>, then checks/c08.py run_exec"})
+    # ---- a vector aggregation without grouping clause, against the DEFINITION (one series {}): finding agg-without-grouping-keeps-streams
+    known = ck.known_findings()
+    nog = [(i, k) for (i, k), v in sorted(vdef.items()) if v == 1 and not (m15.get(i) and (byid[i]["ctx"]["from_ns"] % 15000000000 or byid[i]["ctx"]["to_ns"] % 15000000000))]
+    ck.extra["exec_agg_without_grouping_hits"] = len(nog)
+    if nog:
+        i, k = min(nog, key=lambda ik: (len(byid[ik[0]]["dbs"][ik[1]]["samples"]), len(byid[ik[0]]["query"])))
+        c = byid[i]
+        if "agg-without-grouping-keeps-streams" in known and (c.get("facts") or {}).get("agg_no_grouping"):
+            ck.report_known("agg-without-grouping-keeps-streams", "%s over %d series: the statement answers %d series, the definition %d (%d of %d executed statements x databases)" % (
+                c["query"], len(c["dbs"][k]["series"]), len(got.get((i, k)) or []), len(wdef.get((i, k)) or []), len(nog), len(verd)))
+        else:
+            ck.obligation("execution: a vector aggregation answers the definition's series", False, c["query"])
+            ck.violation({"property": "C08", "part": "output_series_are_grouped_label_sets", "kind": "a vector aggregation without by/without keeps one series per stream; the definition has one series with the empty label set",
+                          "case": {"query": c["query"], "ctx": c["ctx"], "db": c["dbs"][k]}, "sql": c["sql"][0][:3000],
+                          "got_from_statement": got.get((i, k)), "expected_by_definition": wdef.get((i, k)),
+                          "failing_input": "the database of this case", "replay": "harness logqlsql --cases <file with this case>, then checks/c08.py run_exec"})
+    if run:
+        c = run[0]
+        ck.add_samples([{"exec": {"query": c["query"], "ctx": c["ctx"], "db": c["dbs"][0], "verdict": verd.get((c["id"], 0))}}])
+
+
 def scan_source(ck):
     """source facts the model relies on and no generated query can witness (dead branches left out of the model)"""
     import vcheck
@@ -363,16 +535,20 @@ def scan_source(ck):
 
 def run(ck):
     ck.trusted += [
-        "C08: the meaning of each emitted SQL shape (model/LogqlMetricSem.v sem_*: GROUP BY = partition by key, aggregates over the group in table order, any() = a member, SELECT aliases shadow source columns of the same name except inside their own definition, intDiv truncates, HAVING filters groups) is a reading of the ClickHouse documentation, not executed: no ClickHouse exists in the sandbox",
+        "C08: the meaning of each emitted SQL shape (model/LogqlMetricSem.v sem_*: GROUP BY = partition by key, aggregates over the group in table order, any() = a member, SELECT aliases shadow source columns of the same name except inside their own definition, intDiv truncates, HAVING filters groups) is a reading of the ClickHouse documentation; since round 3 it is cross-checked on every run by EXECUTING the statements (model/SqlEvalAgg.v: C07's SqlEval select semantics + aggregate functions parsed from the statement text, itself a trusted reading of ClickHouse: no ClickHouse exists in the sandbox) over generated databases against metric_ref_db - sampled, not proved; what is executed is the planner model's statement, required byte-identical to the implementation's on the same case; concrete oracle instances (substring match for RE2, exact decimals, k=v;k=v documents for JSON, injective byte encoding for cityHash64, symmetric polynomials for quantile/varPop/stddevPop); the metrics_15s roll-up is modelled as one count state per line in its 15 s slot",
         "C08: the main theorems compute with exact rationals; float64 is covered by separate theorems over the model 'every operation returns rnd(exact)' (float64_*: exact parts proved for integer data below 2^53, approximate parts listed in model/LogqlMetricFloat.v); varPop / stddevPop / quantile are oracles equal on both sides; cityHash64 of a label map is an injective oracle (no collisions) and insensitive to map entry order",
-        "C08: the rows reaching the metric planners are tied by theorem (logql_metric_correct_from_stored_data, log_lines_are_consistent) to C07's reference log_rows2 over a database with db_ok and fingerprint = function of the label set, for pipelines without a drop stage; that the SQL of the log part evaluates to those lines is C07's theorem over SqlEval.v (trusted there); timestamps are non-negative",
+        "C08: the rows reaching the metric planners are tied by theorem (logql_metric_correct_from_stored_data, log_lines_are_consistent) to C07's reference log_rows2 over a database with db_ok and fingerprint = function of the label set (line filters, label filters, json stages, drops); that the SQL of the log part evaluates to those lines is C07's theorem over SqlEval.v (trusted there); timestamps are non-negative",
         "C08: the fragments judged by the spec oracle are located in the implementation's SQL by regular expressions in checks/c08.py",
     ]
     ck.coverage["rule"] += ("metric queries: grammar-driven generator (every range function x vector operator x by/without in prefix/suffix/both x comparison x topk/bottomk x quantile, "
                             "ranges and steps from {1s,5s,15s,1m,5m} plus odd ones, unwrap, json/regexp/drop/label stages, shortcut-friendly pipelines) under random contexts; "
                             "non-trivial = the real planners produced SQL; distinct by (query, context). post-processors: random batches of window-start rows of 1-3 series "
-                            "(fingerprint 0 included, zero and negative values, rows outside [from,to], off-grid timestamps), ranges/steps smaller, equal, larger; non-trivial = FixPeriod case with >= 3 rows. ")
+                            "(fingerprint 0 included, zero and negative values, rows outside [from,to], off-grid timestamps), ranges/steps smaller, equal, larger; non-trivial = FixPeriod case with >= 3 rows. "
+                            "execution: metric queries of the sub-grammar with a reference meaning (matchers = / =~, line filters, label filters incl. numeric and and/or, json parameters, drop, unwrap; "
+                            "every range function, vector operator with and without grouping, quantile, comparison; ranges 5s-1m, steps 1s-2m; half of the windows on whole 15 s slots) x 2 databases "
+                            "(2-5 series sharing / not sharing grouped labels, 1-5 lines each on and around window and bucket bounds, other sample types); non-trivial = agreeing case with >= 3 stored lines, distinct by (query, context, database). ")
     ck.coq_props()
     scan_source(ck)
     run_sql(ck)
+    run_exec(ck)
     run_post(ck)
